@@ -1,4 +1,137 @@
-import PoetryVerif.Model.MarkerOps
+/-
+C11 — Python ranges and python_version markers convert into each other exactly.
+Property theorems only (helper lemmas in Proofs/PyConvText.lean, PyConvMarker.lean, PyConvSem.lean).
+
+Vocabulary.  `EnvPy E X Y Z`: the environment `E` has `python_version = "X.Y"` and
+`python_full_version = "X.Y.Z"` (all of `X Y Z : Nat`, unbounded); `pyV X Y Z` is the version `X.Y.Z`.
+`PyBound v`: a final release of precision 1–3 without epoch, spelt canonically (what `>=,>,<,<=,^,~,~=,
+X.*,==` produce from canonical input).  `PyDom rc`: a range with such bounds (not the universal range) or a
+single such version of precision 3.  `refEval E txt` is the PEP 508 reference value (`Spec.Pep508.evalSyn`
+after the grammar recogniser `parseText`) of a marker text, the empty text being "no marker".
+-/
+import PoetryVerif.Proofs.PyConvSem
+import PoetryVerif.Proofs.VRangeOps
+
+set_option linter.unusedSimpArgs false
+set_option linter.unusedVariables false
+
 namespace Poetry.C11
-theorem placeholder_to_be_replaced : True := trivial
+open Poetry Poetry.Marker Poetry.Spec.Pep508 Poetry.Version
+
+/-- reference value of a marker text (the empty text is the absent marker) -/
+def refEval (E : Env) (txt : String) : Option Bool :=
+  if txt.isEmpty then some true
+  else match parseText txt with
+    | .ok syn => evalSyn E syn
+    | .error _ => none
+
+theorem parseText_empty : parseText "" = .error .syntax := rfl
+
+/-- CPython 3.8.1 -/
+def env381 : Env := ⟨[("python_version", "3.8"), ("python_full_version", "3.8.1")], some []⟩
+example : EnvPy env381 3 8 1 := ⟨rfl, rfl⟩
+
+def v (rel : List Nat) : Version := finalV rel
+
+/-! ## range → marker -/
+
+/-- **one range constraint**: the text `create_nested_marker("python_version", rc)` prints parses, and
+its reference value on the environment of interpreter `X.Y.Z` is exactly `rc.allows(X.Y.Z)` — the
+precision-aware choice between `python_version` and `python_full_version`, the `.0` padding for exclusive
+lower / inclusive upper bounds of precision < 3, and `and` for two-sided ranges, case by case (inclusive or
+exclusive × precision 1, 2, 3 × lower or upper bound). -/
+theorem nestedRC_exact (E : Env) (rc : RC) (hd : PyDom rc = true) (X Y Z : Nat) (hE : EnvPy E X Y Z) :
+    ∃ syn, parseText (nestedRC "python_version" rc) = .ok syn ∧
+      evalSyn E syn = some (rc.allows (pyV X Y Z)) := by
+  obtain ⟨syn, _, hp, he⟩ := nestedRC_conj E rc hd X Y Z hE
+  exact ⟨syn, hp, he⟩
+
+/-- `>3.8,<=3.10` is in the domain: printed `python_full_version > "3.8.0" and python_full_version <= "3.10.0"` -/
+example : PyDom (.rng ⟨some (v [3, 8]), some (v [3, 10]), false, true⟩) = true ∧
+    nestedRC "python_version" (.rng ⟨some (v [3, 8]), some (v [3, 10]), false, true⟩) =
+      "python_full_version > \"3.8.0\" and python_full_version <= \"3.10.0\"" := by
+  constructor <;> decide
+
+/-- **the excluded shape is a genuine failure** (known finding `single-version-precision-lt-3`): the single
+version `3.9` (what `<=3.9.0,~3.9` collapses to) is printed `python_version == "3.9"`, which is true on
+interpreter 3.9.1, while the range rejects 3.9.1. -/
+theorem counterexample_single_version_precision_lt_3 :
+    let rc : RC := .ver (v [3, 9])
+    let E : Env := ⟨[("python_version", "3.9"), ("python_full_version", "3.9.1")], some []⟩
+    PyBound (v [3, 9]) = true ∧ (v [3, 9]).precision < 3 ∧ EnvPy E 3 9 1 ∧
+    nestedRC "python_version" rc = "python_version == \"3.9\"" ∧
+    (∃ syn, parseText (nestedRC "python_version" rc) = .ok syn ∧ evalSyn E syn = some true) ∧
+    rc.allows (pyV 3 9 1) = false := by
+  have ht : nestedRC "python_version" (.ver (v [3, 9])) = "python_version == \"3.9\"" := by decide
+  refine ⟨by decide, by decide, ⟨rfl, rfl⟩, ht, ⟨.one (.item "python_version" "==" "3.9" false), ?_, ?_⟩, by decide⟩
+  · rw [ht]; rfl
+  · simp only [evalSyn, evalSynAcc, evalAtom]; decide
+
+/-- the domain of a whole constraint: the universal range, one range constraint, or a union of them -/
+def PyDomVC : VC → Bool
+  | .empty => false
+  | .single rc => rc.isAny || PyDom rc
+  | .union rs => !rs.isEmpty && rs.all PyDom
+
+/-- **`create_nested_marker` is exact**: for the universal range (empty text), one range constraint, and
+unions (`(…) or (…)`), the reference value of the printed text on interpreter `X.Y.Z` is membership of
+`X.Y.Z` (for a union: in one of its members, `VC.allowsPlain`). -/
+theorem createNested_exact (E : Env) (c : VC) (hd : PyDomVC c = true) (X Y Z : Nat) (hE : EnvPy E X Y Z) :
+    ∃ txt, createNestedMarker "python_version" c = .ok txt ∧
+      refEval E txt = some (c.allowsPlain (pyV X Y Z)) := by
+  cases c with
+  | empty => simp [PyDomVC] at hd
+  | single rc =>
+    by_cases ha : rc.isAny = true
+    · refine ⟨"", by simp [createNestedMarker, VC.isAny, ha], ?_⟩
+      cases rc with
+      | ver x => simp [RC.isAny] at ha
+      | rng r =>
+        simp only [RC.isAny, VRange.isAny, Bool.and_eq_true, Option.isNone_iff_eq_none] at ha
+        simp [refEval, VC.allowsPlain, VC.flatten, RC.allows, VRange.allows, VRange.allowsLo, VRange.allowsHi, ha.1, ha.2]
+    · have hd' : PyDom rc = true := by simpa [PyDomVC, ha] using hd
+      obtain ⟨syn, hc, hp, he⟩ := nestedRC_conj E rc hd' X Y Z hE
+      refine ⟨nestedRC "python_version" rc, by simp [createNestedMarker, VC.isAny, ha], ?_⟩
+      have hne : (nestedRC "python_version" rc).isEmpty = false := by
+        cases h : (nestedRC "python_version" rc).isEmpty with
+        | false => rfl
+        | true =>
+          have : nestedRC "python_version" rc = "" := by simpa [String.isEmpty_iff] using h
+          rw [this] at hp; exact absurd hp (by simp [parseText_empty])
+      simp [refEval, hne, hp, he, VC.allowsPlain, VC.flatten]
+  | union rs =>
+    simp only [PyDomVC, Bool.and_eq_true, Bool.not_eq_true', List.isEmpty_eq_false_iff, List.all_eq_true] at hd
+    obtain ⟨syn, hp, he⟩ := nestedUnion_exact E rs hd.1 hd.2 X Y Z hE
+    refine ⟨joinWith " or " (rs.map (fun rc => "(" ++ (if rc.isAny then "" else nestedRC "python_version" rc) ++ ")")),
+      by simp [createNestedMarker, VC.isAny], ?_⟩
+    have hne : (joinWith " or " (rs.map (fun rc => "(" ++ (if rc.isAny then "" else nestedRC "python_version" rc) ++ ")"))).isEmpty = false := by
+      cases h : (joinWith " or " (rs.map (fun rc => "(" ++ (if rc.isAny then "" else nestedRC "python_version" rc) ++ ")"))).isEmpty with
+      | false => rfl
+      | true =>
+        have : joinWith " or " (rs.map (fun rc => "(" ++ (if rc.isAny then "" else nestedRC "python_version" rc) ++ ")")) = "" := by
+          simpa [String.isEmpty_iff] using h
+        rw [this] at hp; exact absurd hp (by simp [parseText_empty])
+    simp [refEval, hne, hp, he, VC.allowsPlain, VC.flatten]
+
+/-- `~2.7 || >=3.4`: a union in the domain -/
+example : PyDomVC (.union [.rng ⟨some (v [2, 7]), some (v [2, 8]), true, false⟩, .rng ⟨some (v [3, 4]), none, true, false⟩]) = true := by
+  decide
+
+/-- **`create_nested_marker` raises only for the empty constraint** (its `assert isinstance`). -/
+theorem createNested_defined (name : String) (c : VC) :
+    (c = .empty ∧ createNestedMarker name c = .error .assertion) ∨ ∃ txt, createNestedMarker name c = .ok txt := by
+  cases c with
+  | empty => left; exact ⟨rfl, rfl⟩
+  | single rc =>
+    right
+    by_cases ha : rc.isAny = true
+    · exact ⟨"", by simp [createNestedMarker, VC.isAny, ha]⟩
+    · exact ⟨nestedRC name rc, by simp [createNestedMarker, VC.isAny, ha]⟩
+  | union rs =>
+    right
+    exact ⟨joinWith " or " (rs.map (fun rc => "(" ++ (if rc.isAny then "" else nestedRC name rc) ++ ")")),
+      by simp [createNestedMarker, VC.isAny]⟩
+
+example : createNestedMarker "python_version" .empty = .error .assertion := rfl
+
 end Poetry.C11
